@@ -252,6 +252,7 @@ static std::map<std::string, std::pair<std::string, std::string>> EVAL_OF = {  /
     {"euler_1d", {"source_rho_u", "S"}}, {"heateq_2d_steady_const", {"source_t", "SS"}}, {"euler_3d", {"source_rho_e", "SSS"}}, {"radiation_integrated_intensity", {"source_u", "S"}},
     {"cp_normal", {"posterior_mean", ""}}, {"laplace_2d", {"source_f", "SS"}}, {"masa_test_function", {"source_t", "S"}}};
 static std::string g_solution;  // --solution for per-solution spaces
+static std::vector<std::string> g_evals;  // --evals fn/sig,fn/sig : evaluators provided by g_solution (from the vtable-derived capability set)
 static int g_tier = 0;
 static Space make_space(const std::string& id);
 
@@ -323,7 +324,7 @@ int main(int argc, char** argv) {
   std::string space_id, replay; int jobs = 16; double deadline = 1e9;
   for (int i = 1; i < argc; i++) { std::string a = argv[i]; auto nx = [&] { return std::string(argv[++i]); };
     if (a == "--space") space_id = nx(); else if (a == "--out") g_out = nx(); else if (a == "--jobs") jobs = atoi(nx().c_str()); else if (a == "--solution") g_solution = nx();
-    else if (a == "--tier") g_tier = nx() == "thorough"; else if (a == "--deadline") deadline = atof(nx().c_str()); else if (a == "--replay") replay = nx(); }
+    else if (a == "--tier") g_tier = nx() == "thorough"; else if (a == "--evals") { std::istringstream es(nx()); std::string t; while (std::getline(es, t, ',')) if (!t.empty()) g_evals.push_back(t); } else if (a == "--deadline") deadline = atof(nx().c_str()); else if (a == "--replay") replay = nx(); }
   g_cap = g_out + ".cap." + std::to_string(getpid());
   Space SP = make_space(space_id);
   load_catalogue();
@@ -463,6 +464,18 @@ static Space make_space(const std::string& id) {
     S.prefix = {opInit(0, "s", sol), opInit(1, "s", sol)}; if (id == "c11allp") { S.prefix.push_back(mk(PURGE, 0)); S.prefix.push_back(mk(PURGE, 1)); }
     for (int r = 0; r < 2; r++) for (auto& n : d.pn) S.ops.push_back(opSet(r, n, 1.5L));
     S.max_depth = 1;
+  } else if (id == "c10") {
+    // cross-handle purity: A and B hold the same solution type, C another one; double and long double registries
+    std::string sol = g_solution, other = (sol == "laplace_2d") ? "euler_1d" : "laplace_2d"; S.solutions = {sol, other}; defaults_for(sol); defaults_for(other);
+    const Sol& d = DEFAULTS[0][sol]; const Sol& od = DEFAULTS[0][other];
+    S.prefix = {opInit(0, "A", sol), opInit(0, "B", sol), opInit(0, "C", other), opInit(1, "A", sol), opSel(0, "A")};
+    for (const char* h : {"A", "B", "C"}) S.ops.push_back(opSel(0, h));
+    if (!d.pn.empty()) { S.ops.push_back(opSet(0, d.pn[d.pn.size() / 2], 7.5L)); S.ops.push_back(opSet(1, d.pn[d.pn.size() / 2], 7.5L)); }
+    S.ops.push_back(opSet(0, od.pn[0], 7.5L));
+    if (!d.vn.empty()) S.ops.push_back(opSetVec(0, d.vn[0], 3));
+    int ne = 0;
+    for (auto& e : g_evals) { size_t sl = e.find('/'); std::string fn = e.substr(0, sl), sig = e.substr(sl + 1); for (int t = 0; t < (g_tier ? 3 : 2); t++) { S.ops.push_back(opEval(0, fn, sig, t)); if (ne < 2) S.ops.push_back(opEval(1, fn, sig, t)); } ne++; }
+    S.ops.push_back(opEval(0, other == "laplace_2d" ? "source_f" : "source_rho_u", other == "laplace_2d" ? "SS" : "S", 0));
   } else if (id == "c17") {
     // C and C++ views of the double registry mixed freely; states with non-zero statuses: purged (sanity 1), test fixture (init_param != 0), unknown array (1)
     S.solutions = {"euler_1d", "radiation_integrated_intensity"};
